@@ -13,7 +13,7 @@ theorem slice_progress (len n c : Nat) (evs dr) :
     Slice.progress_and_get_begin_idx (slice len) n (st c evs dr) =
       .ok (if c < len then some c else none) (st (wrapAdd c n) (evs ++ [faa c n]) dr) := by
   simp only [Slice.progress_and_get_begin_idx, Slice.counter, Slice.initial_len, Counter.fetch_and_add, slice, st, faa,
-    bind, M.bind, pure, M.pure, m_fetch_add, m_len, MLen.m_len, m_cmp]
+    bind, M.bind, pure, M.pure, m_fetch_add, St.get_ctr, St.set_ctr, m_len, MLen.m_len, m_cmp]
   by_cases h1 : c < len
   · simp [h1, M.pure]
   · by_cases h2 : c = len <;> simp [h1, h2, M.pure]
@@ -39,18 +39,18 @@ theorem slice_fetch_one (len c : Nat) (evs dr) :
     Slice.fetch_one (slice len) (st c evs dr) =
       .ok (if c < len then some ⟨c, c⟩ else none) (st (wrapAdd c 1) (evs ++ [faa c 1]) dr) := by
   simp only [Slice.fetch_one, Slice.counter, Slice.get, Counter.fetch_and_increment, slice, st, faa,
-    bind, M.bind, pure, M.pure, m_fetch_add, m_get, m_map, MMap.m_map]
+    bind, M.bind, pure, M.pure, m_fetch_add, St.get_ctr, St.set_ctr, m_get, m_map, MMap.m_map]
   by_cases h1 : c < len <;> simp [h1, M.pure, M.bind]
 
 theorem slice_early_exit (len c : Nat) (evs dr) :
     Slice.early_exit (slice len) (st c evs dr) = .ok () (st len (evs ++ [.st (.ctr 0) .seqcst len]) dr) := by
-  simp [Slice.early_exit, Slice.counter, Counter.store, slice, st, bind, M.bind, pure, M.pure, m_store, m_len, MLen.m_len]
+  simp [Slice.early_exit, Slice.counter, Counter.store, slice, st, bind, M.bind, pure, M.pure, m_store, MStore.m_store, St.set_ctr, m_len, MLen.m_len]
 
 theorem slice_try_get_len (len c : Nat) (evs dr) :
     Slice.try_get_len (slice len) (st c evs dr) =
       .ok (some (lenOf len c)) (st c (evs ++ [.ld (.ctr 0) .acquire c]) dr) := by
   simp only [Slice.try_get_len, Slice.counter, Slice.initial_len, Counter.current, slice, st, lenOf,
-    bind, M.bind, pure, M.pure, m_load, m_len, MLen.m_len, m_cmp, op_sub]
+    bind, M.bind, pure, M.pure, m_load, MLoad.m_load, St.get_ctr, m_len, MLen.m_len, m_cmp, op_sub]
   by_cases h1 : c < len
   · have : c ≤ len := by omega
     simp [h1, this, M.pure, M.bind]
@@ -59,7 +59,7 @@ theorem slice_try_get_len (len c : Nat) (evs dr) :
 theorem slice_into_seq_iter (len c : Nat) (evs dr) :
     Slice.into_seq_iter (slice len) (st c evs dr) =
       .ok ⟨min c len, len⟩ (st c (evs ++ [.ld (.ctr 0) .acquire c]) dr) := by
-  simp [Slice.into_seq_iter, Slice.counter, Counter.current, slice, st, bind, M.bind, pure, M.pure, m_load,
+  simp [Slice.into_seq_iter, Slice.counter, Counter.current, slice, st, bind, M.bind, pure, M.pure, m_load, MLoad.m_load, St.get_ctr,
     m_iter, MIter.m_iter, m_skip]
 
 theorem slice_buffered_next (len n c : Nat) (evs dr) :
